@@ -329,6 +329,12 @@ def run(ctx: core.Ctx):
     nhist, nops, hbad, hkinds = stmts_corr.run(ctx, "c06s", 40 if ctx.quick else 800)
     ctx.evals += nops
     disagreements += hbad
+    # an execution whose SQL differs from what Model/Stmts.v binds (the values sent inline and the long data sent since the statement
+    # was last prepared / executed / reset - c06_long_data_since_last_use, c06_execute_binds_long_data) is a failing input by itself
+    for hb in hbad:
+        if witness is None and ("RExec" in hb.get("impl", "") or "RExec" in hb.get("model", "")):
+            witness = dict(kind="statement-history", problem="an execution did not bind exactly the values sent for it (inline, and long data since the statement's last use)",
+                           operations=hb["operations"][-8:], application_received=hb["impl"], expected=hb["model"], query_attributes=hb["query_attributes"])
 
     if witness is not None:
         core.report_violation(ctx, "a parameter value is not bound as exactly one literal / placeholders miscounted", witness)
